@@ -6,7 +6,7 @@ import numpy as np
 import core
 import gen
 
-PROOF_MODULES = ["UnytProofs.C03"]
+PROOF_MODULES = ["UnytProofs.C03", "UnytProofs.C03History", "UnytProofs.C03Routes", "UnytProofs.C03Tab", "UnytProofs.C03TabEm"]
 
 EPS = {"float64": 2.0 ** -52, "float32": 2.0 ** -23, "complex128": 2.0 ** -52, "int32": 2.0 ** -23, "int64": 2.0 ** -52}
 
@@ -112,16 +112,250 @@ def snippet(body):
     return "import numpy as np, unyt, sys\nfrom unyt import unyt_array, unyt_quantity, Unit\n" + body
 
 
+# --------------------------------------------------------------------------------------
+# conversion histories (UnytModel/ConvHistory.lean, UnytProofs/C03History.lean)
+
+HIST_REPLAY = r"""
+import numpy as np, unyt, sys
+from unyt import unyt_array, unyt_quantity, Unit
+REG = unyt.unit_registry.default_unit_registry
+x0, a0, ops, rounds, reps = {x0!r}, {a0!r}, {ops!r}, {rounds!r}, {reps!r}
+_fac = {{}}
+def by_hand(x, a, b):
+    # Unit.get_conversion_factor applied by hand, on long-lived units; b = unit name or ("base", system)
+    if (a, b) not in _fac:
+        ua = Unit(a, registry=REG)
+        ub = ua.get_base_equivalent(b[1]) if isinstance(b, tuple) else Unit(b, registry=REG)
+        _fac[a, b] = ua.get_conversion_factor(ub)
+    f, o = _fac[a, b]
+    return x * f - (o if o else 0.0), abs(x * f) + abs(o or 0.0)
+def target_of(op):
+    return op[1] if op[0] in ("C", "P") else (op[3] if op[0] in ("T", "I") else ("base", op[1] if op[0] == "PB" else op[3]))
+def play():
+    obj = unyt_array([x0], a0)
+    label = a0
+    out = []
+    for _ in range(rounds):
+        for op in ops:
+            if op[0] == "C":
+                pre = float(obj.d[0]); obj.convert_to_units(op[1]); out.append((op, pre, label, float(obj.d[0]))); label = op[1]
+            elif op[0] == "P":
+                pre = float(obj.d[0])
+                r = obj.to_value(op[1]) if op[2] == 0 else (obj.to(op[1]).d if op[2] == 1 else obj.in_units(op[1]).d)
+                out.append((op, pre, label, float(r[0])))
+            elif op[0] == "T":
+                out.append((op, op[1], op[2], unyt_quantity(op[1], op[2]).to_value(op[3])))
+            elif op[0] == "I":
+                t = unyt_array([op[1]], op[2]); t.convert_to_units(op[3]); out.append((op, op[1], op[2], float(t.d[0])))
+            elif op[0] == "PB":
+                pre = float(obj.d[0])
+                r = obj.in_base(op[1]) if op[2] == 0 else getattr(obj, "in_" + op[1])()
+                out.append((op, pre, label, float(r.d[0])))
+            elif op[0] == "TB":
+                q = unyt_quantity(op[1], op[2])
+                out.append((op, op[1], op[2], float((q.in_base(op[3]) if op[4] == 0 else getattr(q, "in_" + op[3])()).d)))
+            else:
+                t = unyt_array([op[1]], op[2])
+                t.convert_to_base(op[3]) if op[4] == 0 else getattr(t, "convert_to_" + op[3])()
+                out.append((op, op[1], op[2], float(t.d[0])))
+    return out
+for rep in range(reps):
+    for i, (op, pre, label, got) in enumerate(play()):
+        tg = target_of(op)
+        want, m = by_hand(pre, label, tg)
+        assert abs(got - want) <= 64 * 2.0 ** -52 * (m + abs(got)), (
+            f"call {{i}} of repetition {{rep}}: {{op}} on {{pre}} {{label}} -> {{tg}} returned {{got}}, "
+            f"get_conversion_factor applied by hand gives {{want}}")
+"""
+
+
+def play_history(x0, a0, ops, rounds):
+    """the history on the real library, in a tight loop (nothing else is allocated in between, so
+    short-lived units are collected and their storage re-used as in user code)"""
+    from unyt import unyt_array, unyt_quantity
+    obj = unyt_array([x0], a0)
+    label = a0
+    out = []
+    for _ in range(rounds):
+        for op in ops:
+            if op[0] == "C":
+                pre = float(obj.d[0])
+                obj.convert_to_units(op[1])
+                out.append((op, pre, label, float(obj.d[0])))
+                label = op[1]
+            elif op[0] == "P":
+                pre = float(obj.d[0])
+                r = obj.to_value(op[1]) if op[2] == 0 else (obj.to(op[1]).d if op[2] == 1 else obj.in_units(op[1]).d)
+                out.append((op, pre, label, float(r[0])))
+            elif op[0] == "T":
+                out.append((op, op[1], op[2], unyt_quantity(op[1], op[2]).to_value(op[3])))
+            elif op[0] == "I":
+                t = unyt_array([op[1]], op[2])
+                t.convert_to_units(op[3])
+                out.append((op, op[1], op[2], float(t.d[0])))
+            elif op[0] == "PB":
+                pre = float(obj.d[0])
+                r = obj.in_base(op[1]) if op[2] == 0 else getattr(obj, "in_" + op[1])()
+                out.append((op, pre, label, float(r.d[0])))
+            elif op[0] == "TB":
+                q = unyt_quantity(op[1], op[2])
+                out.append((op, op[1], op[2], float((q.in_base(op[3]) if op[4] == 0 else getattr(q, "in_" + op[3])()).d)))
+            else:
+                t = unyt_array([op[1]], op[2])
+                t.convert_to_base(op[3]) if op[4] == 0 else getattr(t, "convert_to_" + op[3])()
+                out.append((op, op[1], op[2], float(t.d[0])))
+    return out
+
+
+def target_of(op):
+    """unit name, or ("base", system) for the base-system routes"""
+    return op[1] if op[0] in ("C", "P") else (op[3] if op[0] in ("T", "I") else ("base", op[1] if op[0] == "PB" else op[3]))
+
+
+def histories(chk, fam, famkind, names, units, tier, hist_lines, hist_expect):
+    """histories of conversions on one long-lived array and on short-lived temporaries built from
+    unit NAMES (a fresh Unit object per temporary).  Oracle (direct): every returned number is
+    what Unit.get_conversion_factor applied by hand gives for (numbers, current unit, target) —
+    i.e. the result does not depend on the calls made before."""
+    rng = chk.rng
+    # only one dimension per history (EM families hold two)
+    bydim = {}
+    for n in names:
+        bydim.setdefault(str(units[n].dimensions), []).append(n)
+    pools = [g for g in bydim.values() if len(g) >= 2]
+    if not pools:
+        return
+    nh = (10 if famkind in ("temperature", "angle") else 2) if tier == "quick" else (30 if famkind in ("temperature", "angle") else 8)
+    rounds = 6
+    eps = EPS["float64"]
+    fac = {}
+
+    def by_hand(x, a, b):
+        if (a, b) not in fac:
+            ub = units[a].get_base_equivalent(b[1]) if isinstance(b, tuple) else units[b]
+            fac[a, b] = units[a].get_conversion_factor(ub) + (abs(ub.base_offset),)
+        f, o, _ = fac[a, b]
+        return x * f - (o if o else 0.0), abs(x * f) + abs(o or 0.0), abs(f)
+
+    def base_ok(a, sysname):
+        """the base-system routes are compared by hand outside the EM table's dimensions only"""
+        if famkind == "em":
+            return False
+        try:
+            by_hand(1.0, a, ("base", sysname))
+            return True
+        except Exception:
+            return False
+
+    for h in range(nh):
+        pool = rng.choice(pools)
+        # units that are easily mistaken for each other: same scale, another zero point
+        # (K/degC/delta_degC, degree/lon, ...), or same zero point and another scale
+        srcs = pool
+        if rng.random() < 0.7:
+            a = rng.choice(pool)
+            twins = [n for n in pool if units[n].base_value == units[a].base_value]
+            if len({units[n].base_offset for n in twins}) >= 2:
+                srcs = twins
+        tgts = rng.sample(pool, min(len(pool), 2))
+        a0 = rng.choice(srcs)
+        x0 = float(gen.data(rng, (), "float64", -1, 3))
+        ops = []
+        # half of the histories are "focused": one route, one target (or system), only the source
+        # unit varies from call to call — the pattern in which any state kept between calls and
+        # keyed on less than the data the factor depends on shows
+        focus = rng.choice(["T", "I", "TB", "IB"]) if rng.random() < 0.5 else None
+        if focus and srcs is pool:
+            groups = {}
+            for n in pool:
+                groups.setdefault(units[n].base_value, []).append(n)
+            groups = [g for g in groups.values() if len({units[n].base_offset for n in g}) >= 2]
+            if groups:
+                srcs = rng.choice(groups)
+        ftarget = rng.choice(tgts)
+        fsys = rng.choice(["mks", "cgs"])
+        for _ in range(rng.randint(4, 7)):
+            k = focus or rng.choice("CPTTTIIBBB")
+            if k == "B":
+                k = rng.choice(["PB", "TB", "TB", "IB"])
+            if k in ("PB", "TB", "IB"):
+                sysname = fsys if focus else rng.choice(["mks", "cgs"])
+                src = rng.choice(srcs)
+                if k == "PB" and all(base_ok(n, sysname) for n in set(srcs + tgts)):
+                    ops.append(("PB", sysname, rng.randint(0, 1)))
+                elif k != "PB" and base_ok(src, sysname):
+                    ops.append((k, float(gen.data(rng, (), "float64", -1, 3)), src, sysname, rng.randint(0, 1)))
+            elif k == "C":
+                ops.append(("C", rng.choice(srcs + tgts)))
+            elif k == "P":
+                ops.append(("P", rng.choice(tgts), rng.randint(0, 2)))
+            else:
+                ops.append((k, float(gen.data(rng, (), "float64", -1, 3)), rng.choice(srcs), ftarget if focus else rng.choice(tgts)))
+        if not ops:
+            continue
+        try:
+            out = play_history(x0, a0, ops, rounds)
+        except Exception as e:
+            chk.fail(f"history-raise|{famkind}", f"a conversion history between commensurable units raised {core.exc_name(e)}",
+                     {"python": HIST_REPLAY.format(x0=x0, a0=a0, ops=ops, rounds=rounds, reps=1), "error": repr(e)})
+            continue
+        chk.case(("history", fam, a0, tuple(ops)), {"family": fam, "history": [a0] + [list(o) for o in ops], "rounds": rounds} if len(chk.samples) < 8 else None)
+        chk.count("history:" + famkind)
+        failed = False
+        wire = ["c03.hist", str(core.f2b(x0))] + list(map(str, gen.expr_wire(units[a0].expr)))
+        tols = []
+        err = 0.0
+        for i, (op, pre, label, got) in enumerate(out):
+            tg = target_of(op)
+            want, m, f = by_hand(pre, label, tg)
+            chk.count("history-op:" + op[0])
+            if not np.isfinite(got) or abs(got - want) > 64 * eps * (m + abs(got)):
+                if not failed:
+                    failed = True
+                    route = {"C": "convert_to_units", "P": "to_value/to/in_units", "T": "temporary.to_value", "I": "temporary.convert_to_units",
+                             "PB": "in_base", "TB": "temporary.in_base", "IB": "temporary.convert_to_base"}[op[0]]
+                    chk.fail(f"history|{famkind}|{route}",
+                             f"call {i} of a conversion history: {op} on {pre} {label} returned {got}, get_conversion_factor applied by hand gives {want}"
+                             " (the result depends on earlier conversions)",
+                             {"python": HIST_REPLAY.format(x0=x0, a0=a0, ops=ops, rounds=rounds, reps=30), "units": [label, str(tg)], "history": [a0] + [list(o) for o in ops]})
+            # error carried by the in-place chain of the model vs the implementation
+            t_i = 512 * eps * (m + abs(got) + abs(units[label].base_offset) + fac[label, tg][2])
+            if op[0] == "C":
+                err = err * f + t_i
+                tols.append(err)
+            elif op[0] in ("P", "PB"):
+                tols.append(err * f + t_i)
+            else:
+                tols.append(t_i)
+            if op[0] in ("C", "P"):
+                wire += [op[0]] + list(map(str, gen.expr_wire(units[tg].expr)))
+            elif op[0] in ("T", "I"):
+                wire += [op[0], str(core.f2b(op[1]))] + list(map(str, gen.expr_wire(units[op[2]].expr))) + list(map(str, gen.expr_wire(units[tg].expr)))
+            elif op[0] == "PB":
+                wire += ["PB", op[1]]
+            else:
+                wire += [op[0], str(core.f2b(op[1]))] + list(map(str, gen.expr_wire(units[op[2]].expr))) + [op[3]]
+        hist_lines.append("\t".join(wire))
+        hist_expect.append((fam, a0, ops, [o[3] for o in out], tols))
+
+
 def run(tier, seed):
     import unyt
     from unyt import Unit, unyt_array
 
     chk = core.Check("C03", tier, seed)
-    chk.proof = core.prove("C03", PROOF_MODULES, tier=tier)
+    chk.proof = core.prove("C03", PROOF_MODULES, extra_targets=("unytmodel", "drv_c03"), tier=tier)
     rng = chk.rng
     fams = families(tier, rng)
     model_lines = []
     model_expect = []
+    hist_lines = []
+    hist_expect = []
+    route_lines = []
+    route_expect = []
+    base_lines = []
+    base_expect = []
+    seen_base = {}
     dtypes = ["float64", "float32", "complex128", "int32"]
     max_triples = 1500 if tier == "quick" else 40000
     for fam, names in fams.items():
@@ -191,6 +425,15 @@ def run(tier, seed):
                          {"python": snippet(body_common + f"tol = {tol_cmp!r}\nr1 = x.to('{b}').to('{c}'); r2 = x.to('{c}')\nassert np.all(np.abs(r1.d - r2.d) <= tol), (r1, r2)\n"), "units": [a, b, c]})
             if xbc.units != xc.units or xba.units != x.units:
                 chk.fail(f"unit-label|{famkind}", "resulting unit differs between routes", {"units": [a, b, c]})
+        # --- histories on one object and on temporaries ------------------------------
+        hnames = []
+        for n in names:
+            try:
+                gen.expr_wire(units[n].expr)
+                hnames.append(n)
+            except ValueError:
+                pass
+        histories(chk, fam, famkind, hnames, units, tier, hist_lines, hist_expect)
         # --- routes and the model, on ordered pairs ---------------------------------
         pairs = list(itertools.product(names, repeat=2))
         if tier == "quick" and len(pairs) > 150:
@@ -248,11 +491,26 @@ def run(tier, seed):
                     continue
                 tolb = 512 * EPS["float64"] * (mag(raw, rb.d) + abs(ua.base_offset))
                 chk.count("base-routes:" + sysname)
+                if sysname not in seen_base.setdefault(a, set()):
+                    seen_base[a].add(sysname)
+                    try:
+                        base_lines.append("\t".join(["c03.base", sysname, str(core.f2b(float(raw[0])))] + list(map(str, gen.expr_wire(ua.expr)))))
+                        base_expect.append((a, sysname, float(rb.d[0]), float(y.d[0]), float(via.d[0]), tolb))
+                    except ValueError:
+                        pass
                 for rn, rv in (("convert_to_base", y), ("in_" + sysname, rs), ("convert_to_" + sysname, z), ("to(get_base_equivalent)", via)):
                     if not near(rv.d, rb.d, tolb) or rv.units != rb.units:
                         chk.fail(f"base-routes|{famkind}|{rn}", f"{rn}({sysname}) disagrees with in_base",
                                  {"python": snippet(f"x = unyt_array(np.array({raw.tolist()!r}), '{a}')\nrb = x.in_base('{sysname}')\ny = x.copy(); y.convert_to_base('{sysname}')\nv = x.to(x.units.get_base_equivalent('{sysname}'))\n"
                                                      f"for r in (y, v, x.in_{sysname}()):\n    assert np.all(np.abs(r.d - rb.d) <= {tolb!r}) and r.units == rb.units, (r, rb)\n"), "units": [a, sysname]})
+            # both routes of the model, EM branch included (UnytModel/ConvRoutes.lean)
+            try:
+                wa = list(map(str, gen.expr_wire(ua.expr)))
+                wb = list(map(str, gen.expr_wire(ub.expr)))
+                route_lines.append("\t".join(["c03.routes", str(core.f2b(float(raw[0])))] + wa + wb))
+                route_expect.append((fam, a, b, float(results["in_units"].d[0]), float(results["convert_to_units"].d[0]), tol, is_em))
+            except ValueError:
+                pass
             # model comparison (non-EM pairs)
             if not is_em:
                 try:
@@ -287,7 +545,47 @@ def run(tier, seed):
             if not ok:
                 chk.disagree("convunits", f"{a}->{b} x={xv}: model ({mf},{mo},{mr}) vs implementation ({f},{o},{res})",
                              {"units": [a, b]})
+    try:
+        hreplies = core.Model("drv_c03").ask(hist_lines)
+    except Exception as e:
+        hreplies = []
+        chk.disagree("driver", repr(e))
+    for rep, (fam, a0, ops, outs, tols) in zip(hreplies, hist_expect):
+        chk.count("model:c03.hist")
+        if rep[0] != "ok" or len(rep) != len(outs) + 2:
+            chk.disagree("c03.hist", f"{fam} {a0} {ops}: model {rep[:4]}")
+            continue
+        for i, (mv, rv, tl) in enumerate(zip(rep[1:-1], outs, tols)):
+            if mv.startswith("err:") or not abs(core.b2f(mv) - rv) <= tl:
+                chk.disagree("c03.hist", f"{fam}: call {i} ({ops[i % len(ops)]}) of history from {a0}: model {mv if mv.startswith('err') else core.b2f(mv)} vs implementation {rv}",
+                             {"history": [a0] + [list(o) for o in ops]})
+                break
+    try:
+        rreplies = core.Model("drv_c03").ask(route_lines)
+    except Exception as e:
+        rreplies = []
+        chk.disagree("driver", repr(e))
+    for rep, (fam, a, b, r_in, r_cv, tol, is_em) in zip(rreplies, route_expect):
+        chk.count("model:c03.routes" + (":em" if is_em else ""))
+        bad = rep[0] != "ok" or len(rep) != 3 or rep[1].startswith("err") or rep[2].startswith("err")
+        if not bad:
+            bad = not (abs(core.b2f(rep[1]) - r_in) <= tol and abs(core.b2f(rep[2]) - r_cv) <= tol)
+        if bad:
+            chk.disagree("c03.routes", f"{a}->{b}: model {rep} vs implementation in_units {r_in} convert_to_units {r_cv}", {"units": [a, b]})
+    try:
+        breplies = core.Model("drv_c03").ask(base_lines)
+    except Exception as e:
+        breplies = []
+        chk.disagree("driver", repr(e))
+    for rep, (a, sysname, r_in, r_cv, r_via, tolb) in zip(breplies, base_expect):
+        chk.count("model:c03.base")
+        bad = rep[0] != "ok" or len(rep) != 4 or any(f.startswith("err") for f in rep[1:])
+        if not bad:
+            bad = not all(abs(core.b2f(f) - r) <= tolb for f, r in zip(rep[1:], (r_in, r_cv, r_via)))
+        if bad:
+            chk.disagree("c03.base", f"{a} into {sysname}: model {rep} vs implementation in_base {r_in} convert_to_base {r_cv} to(get_base_equivalent) {r_via}", {"units": [a, sysname]})
     rule = ("ordered triples (A,B,C) of commensurable unit strings per family (temperature incl. SI prefixes, angle incl. lat/lon, "
             "EM pairs with prefixes, table groups by dimension, re-expressed compounds) x seeded data x dtype x shape; "
-            "distinct = distinct (family,A,B,C) or (routes,family,A,B); every case has at least one non-identity conversion")
+            "plus conversion histories (in-place / copy calls on one array interleaved with calls on temporaries built from unit names, 6 rounds each); "
+            "distinct = distinct (family,A,B,C), (routes,family,A,B) or (history,family,start,ops); every case has at least one non-identity conversion")
     return chk.finish(rule)
